@@ -576,6 +576,14 @@ func (c *Ctx) lift2(a, b *Term, f func(x, y *Term) *Term) (*Term, bool) {
 	if a.IsConst() && isConstTree(b) {
 		return c.mapLeaves(b, func(l *Term) *Term { return f(a, l) }, map[*Term]*Term{}), true
 	}
+	if a.Op == OIte && b.Op == OIte {
+		ba, bb := 40, 40
+		if constLeaves(a, &ba) && constLeaves(b, &bb) && (40-ba)*(40-bb) <= 400 {
+			return c.mapLeaves(a, func(la *Term) *Term {
+				return c.mapLeaves(b, func(lb *Term) *Term { return f(la, lb) }, map[*Term]*Term{})
+			}, map[*Term]*Term{}), true
+		}
+	}
 	return nil, false
 }
 
